@@ -22,7 +22,8 @@ type RVal struct {
 	ptr  Ptr        // addressable: where the value lives
 	val  Value      // not addressable: the value
 	addr bool
-	ro   bool
+	ro   bool // sticky read-only: reached through an unexported non-embedded field
+	ero  bool // embed read-only: the value IS an unexported embedded field (not inherited by its fields)
 }
 
 type RType struct{ t types.Type }
@@ -352,12 +353,12 @@ func (eng *Engine) initReflect() {
 		return e.mkRType(v.t)
 	})
 	vm("CanAddr", func(e *Exec, v *RVal, _ []Value) Value { return boolV(e, v.addr) })
-	vm("CanSet", func(e *Exec, v *RVal, _ []Value) Value { return boolV(e, v.addr && !v.ro) })
+	vm("CanSet", func(e *Exec, v *RVal, _ []Value) Value { return boolV(e, v.addr && !v.ro && !v.ero) })
 	vm("CanInterface", func(e *Exec, v *RVal, _ []Value) Value {
 		if v.t == nil {
 			e.reflectPanic("call of reflect.Value.CanInterface on zero Value")
 		}
-		return boolV(e, !v.ro)
+		return boolV(e, !v.ro && !v.ero)
 	})
 	vm("NumMethod", func(e *Exec, v *RVal, _ []Value) Value {
 		if v.t == nil {
@@ -370,13 +371,13 @@ func (eng *Engine) initReflect() {
 		if !v.addr {
 			e.reflectPanic("reflect.Value.Addr of unaddressable value")
 		}
-		return &RVal{t: types.NewPointer(v.t), val: v.ptr, ro: v.ro}
+		return &RVal{t: types.NewPointer(v.t), val: v.ptr, ro: v.ro, ero: v.ero}
 	})
 	vm("Interface", func(e *Exec, v *RVal, _ []Value) Value {
 		if v.t == nil {
 			e.reflectPanic("call of reflect.Value.Interface on zero Value")
 		}
-		if v.ro {
+		if v.ro || v.ero {
 			e.reflectPanic("reflect.Value.Interface: cannot return value obtained from unexported field or method")
 		}
 		x := e.rget(v)
@@ -458,18 +459,22 @@ func (eng *Engine) initReflect() {
 			e.reflectPanic("Field index out of range")
 		}
 		f := st.Field(i)
-		ro := v.ro || !f.Exported()
-		if f.Embedded() && !f.Exported() {
-			ro = v.ro || true
+		ro, ero := v.ro, false
+		if !f.Exported() {
+			if f.Embedded() {
+				ero = true
+			} else {
+				ro = true
+			}
 		}
 		if v.addr {
 			if v.ptr.sym != nil {
 				v = &RVal{t: v.t, ptr: e.concretizePtr(v.ptr), addr: true, ro: v.ro}
 			}
 			cells := (*v.ptr.cell).(Struct)
-			return &RVal{t: f.Type(), ptr: Ptr{cell: &cells[i]}, addr: true, ro: ro}
+			return &RVal{t: f.Type(), ptr: Ptr{cell: &cells[i]}, addr: true, ro: ro, ero: ero}
 		}
-		return &RVal{t: f.Type(), val: v.val.(Struct)[i], ro: ro}
+		return &RVal{t: f.Type(), val: v.val.(Struct)[i], ro: ro, ero: ero}
 	})
 	vm("Index", func(e *Exec, v *RVal, args []Value) Value {
 		idx := args[0].(*Term)
@@ -477,7 +482,7 @@ func (eng *Engine) initReflect() {
 		switch xv := x.(type) {
 		case Slice:
 			i := e.reflectIndex(idx, len(xv.c), "slice")
-			return &RVal{t: under(v.t).(*types.Slice).Elem(), ptr: Ptr{cell: &xv.c[i], obj: xv.obj, idx: xv.off + i}, addr: true, ro: v.ro}
+			return &RVal{t: under(v.t).(*types.Slice).Elem(), ptr: Ptr{cell: &xv.c[i], obj: xv.obj, idx: xv.off + i}, addr: true, ro: v.ro, ero: v.ero}
 		case *ArrObj:
 			et := under(v.t).(*types.Array).Elem()
 			if v.addr {
@@ -537,7 +542,7 @@ func (eng *Engine) initReflect() {
 		if !v.addr {
 			e.reflectPanic("reflect.Value." + what + " using unaddressable value")
 		}
-		if v.ro {
+		if v.ro || v.ero {
 			e.reflectPanic("reflect.Value." + what + " using value obtained using unexported field")
 		}
 	}
@@ -547,7 +552,7 @@ func (eng *Engine) initReflect() {
 		if x.t == nil {
 			e.reflectPanic("reflect: call of reflect.Value.Set on zero Value")
 		}
-		if x.ro {
+		if x.ro || x.ero {
 			e.reflectPanic("reflect.Value.Set using value obtained using unexported field")
 		}
 		if !types.AssignableTo(x.t, v.t) {
@@ -893,13 +898,13 @@ func (e *Exec) rElem(v *RVal) Value {
 		if itf.t == nil {
 			return &RVal{}
 		}
-		return &RVal{t: itf.t, val: itf.v, ro: v.ro}
+		return &RVal{t: itf.t, val: itf.v, ro: v.ro, ero: v.ero}
 	case reflect.Pointer:
 		p := e.rget(v).(Ptr)
 		if p.IsNil() {
 			return &RVal{}
 		}
-		return &RVal{t: under(v.t).(*types.Pointer).Elem(), ptr: p, addr: true, ro: v.ro}
+		return &RVal{t: under(v.t).(*types.Pointer).Elem(), ptr: p, addr: true, ro: v.ro, ero: v.ero}
 	}
 	e.reflectPanic("call of reflect.Value.Elem on " + rkind(v.t).String() + " Value")
 	return nil
